@@ -1,60 +1,1116 @@
-//! C19 probe (temporary)
-use noodles_cram as cram;
+//! C19: CRAM indexing (cram::fs::index -> crai) and region queries (cram::io::Reader::query /
+//! IndexedReader::query) return exactly the scan-filtered records.
+//!
+//! Case kinds (both modelled by NV.CramIdx.Crai; obs compared byte for byte):
+//!
+//!   idx  per_slice  reflens  seqseed  records  p0  layout  transport
+//!        -> obs `I=<entry;entry;...>` | `I=Panic` | `I=Err:<kind>`
+//!           entry = rid,start,span,offset,landmark,slice_length   (rid `*`, start `-` when absent)
+//!        verdict: every crai::Record equals an INDEPENDENT computation (own container/block
+//!        walker for offset / landmark / slice length, own CIGAR arithmetic for start / span),
+//!        one entry per single-reference slice, one per reference (and one unmapped entry) for a
+//!        multi-reference slice; and the index survives the transport (0 = none, 1 = crai::fs
+//!        write+read through a temp file, 2 = crai::io::Writer/Reader in memory).
+//!
+//!   qry  per_slice  reflens  seqseed  records  p0  layout  regions  mode
+//!        -> obs `Q=<answer;answer;...>`, answer = ordinals of the returned records (`_` = none)
+//!           or `Err:<kind>` / `Panic`
+//!        verdict: for every region the indexed query returns exactly the records a scan keeps
+//!        (on the named reference, intersecting the interval), each once, in file order.
+//!        The index handed to the query is the one from cram::fs::index when that succeeds, else
+//!        the independently computed one.  mode: 0 = one Reader for all regions, 1 = a fresh
+//!        Reader per region, 2 = IndexedReader (built from a .crai read back from disk).
+//!
+//!   records  = `;`-separated `rid:start:end:seq:cigar:readlen` (`*:0:0:seq:*:readlen` unmapped);
+//!              record i is named `r<i>`; `end` is recomputed here from the CIGAR.
+//!   layout   = `;`-separated `offset:header_len:body_len:landmark:slice_len:nrecords`, the data
+//!              containers observed when the generator wrote the file; `run` writes the file
+//!              again and checks that its own walker sees the same layout.
+//!   regions  = `;`-separated `ref:lo:hi` (`-` = unbounded)
+
+use std::io::Cursor;
+
+use noodles_core::{Position, Region};
+use noodles_cram::{self as cram, crai};
 use noodles_fasta as fasta;
 use noodles_sam as sam;
-use nv::{Case, CaseWriter, Obs, Rng};
+use nv::{Case, CaseWriter, Obs, Outcome, Rng, errkind, guarded};
 
-fn generate(_rng: &mut Rng, _tier: &str, _w: &mut CaseWriter) {}
-fn run(_c: &Case) -> Obs { Obs::ok("-", false) }
+// ---------------------------------------------------------------------------------------------
+// file specification
 
-fn main() {
-    if std::env::args().nth(1).as_deref() == Some("probe") {
-        probe();
-        return;
-    }
-    nv::main_with(generate, run)
+#[derive(Clone, Debug)]
+struct RecSpec {
+    rid: Option<usize>,
+    start: u64,
+    end: u64,
+    has_seq: bool,
+    cigar: Vec<(char, u64)>,
+    read_len: u64,
 }
 
-fn probe() {
-    use sam::alignment::io::Write as _;
-    let refs = vec![
-        fasta::Record::new(fasta::record::Definition::new("sq0", None), fasta::record::Sequence::from(b"ACGTACGTACGTACGTACGTACGTACGTACGTACGTACGT".to_vec())),
-        fasta::Record::new(fasta::record::Definition::new("sq1", None), fasta::record::Sequence::from(b"TTGCATTGCATTGCATTGCATTGCATTGCATTGCATTGCA".to_vec())),
-    ];
-    let repo = fasta::Repository::new(refs);
-    let text = b"@HD\tVN:1.6\tSO:coordinate\n@SQ\tSN:sq0\tLN:40\n@SQ\tSN:sq1\tLN:40\n\
-r0\t0\tsq0\t5\t30\t4M\t*\t0\t0\tACGT\tIIII\n\
-r1\t0\tsq0\t20\t30\t4M\t*\t0\t0\tTACG\tIIII\n\
-r2\t0\tsq1\t6\t30\t4M\t*\t0\t0\tTTGC\tIIII\n\
-r3\t0\tsq1\t30\t30\t4M\t*\t0\t0\tTTGC\tIIII\n";
-    let mut r = sam::io::Reader::new(&text[..]);
-    let h = r.read_header().unwrap();
-    let recs = r.record_bufs(&h).collect::<Result<Vec<_>, _>>().unwrap();
-    let per: usize = std::env::args().nth(2).unwrap().parse().unwrap();
-    let mut w = cram::io::writer::Builder::default()
-        .set_reference_sequence_repository(repo.clone())
-        .verif_set_records_per_slice(per)
-        .build_from_writer(Vec::new());
-    w.write_header(&h).unwrap();
-    for r in &recs { w.write_alignment_record(&h, r).unwrap(); }
-    w.try_finish(&h).unwrap();
-    let bytes = w.get_ref().clone();
-    let path = std::env::temp_dir().join("c19probe.cram");
-    std::fs::write(&path, &bytes).unwrap();
-    let idx = nv::guarded(|| cram::fs::index(&path));
-    let idx = match idx {
-        nv::Outcome::Done(r) => { println!("index: {:?}", r); r.ok() }
-        nv::Outcome::Panicked(m) => { println!("index PANIC {m}"); None }
-    };
-    if let Some(idx) = idx {
-        let mut rd = cram::io::reader::Builder::default().set_reference_sequence_repository(repo.clone()).build_from_path(&path).unwrap();
-        let hh = rd.read_header().unwrap();
-        for reg in ["sq0:1-10", "sq0", "sq1:1-10", "sq1:20-40"] {
-            let region: noodles_core::Region = reg.parse().unwrap();
-            let q = rd.query(&hh, &idx, &region).unwrap();
-            let names: Vec<String> = q.records().map(|r| r.map(|r| format!("{:?}", r.name().map(|n| n.to_string()))).unwrap_or_else(|e| format!("ERR {e}"))).collect();
-            println!("{reg}: {names:?}");
+#[derive(Clone, Debug)]
+struct FileSpec {
+    per_slice: usize,
+    ref_lens: Vec<u64>,
+    seqseed: u64,
+    recs: Vec<RecSpec>,
+}
+
+fn ref_span(cigar: &[(char, u64)]) -> u64 {
+    cigar
+        .iter()
+        .filter(|(op, _)| matches!(op, 'M' | 'D' | 'N' | '=' | 'X'))
+        .map(|&(_, n)| n)
+        .sum()
+}
+
+fn read_len(cigar: &[(char, u64)]) -> u64 {
+    cigar
+        .iter()
+        .filter(|(op, _)| matches!(op, 'M' | 'I' | 'S' | '=' | 'X'))
+        .map(|&(_, n)| n)
+        .sum()
+}
+
+fn fmt_cigar(c: &[(char, u64)]) -> String {
+    if c.is_empty() {
+        return "*".into();
+    }
+    c.iter().map(|(op, n)| format!("{n}{op}")).collect()
+}
+
+fn parse_cigar(s: &str) -> Vec<(char, u64)> {
+    if s == "*" {
+        return vec![];
+    }
+    let mut out = vec![];
+    let mut n = 0u64;
+    for ch in s.chars() {
+        if let Some(d) = ch.to_digit(10) {
+            n = n * 10 + d as u64;
+        } else {
+            out.push((ch, n));
+            n = 0;
         }
     }
-    std::fs::remove_file(&path).ok();
+    out
+}
+
+fn fmt_recs(recs: &[RecSpec]) -> String {
+    if recs.is_empty() {
+        return "_".into();
+    }
+    recs.iter()
+        .map(|r| {
+            format!(
+                "{}:{}:{}:{}:{}:{}",
+                r.rid.map(|x| x.to_string()).unwrap_or_else(|| "*".into()),
+                r.start,
+                r.end,
+                r.has_seq as u8,
+                fmt_cigar(&r.cigar),
+                r.read_len
+            )
+        })
+        .collect::<Vec<_>>()
+        .join(";")
+}
+
+fn parse_recs(s: &str) -> Vec<RecSpec> {
+    if s == "_" {
+        return vec![];
+    }
+    s.split(';')
+        .map(|t| {
+            let f: Vec<&str> = t.split(':').collect();
+            RecSpec {
+                rid: if f[0] == "*" { None } else { Some(f[0].parse().unwrap()) },
+                start: f[1].parse().unwrap(),
+                end: f[2].parse().unwrap(),
+                has_seq: f[3] == "1",
+                cigar: parse_cigar(f[4]),
+                read_len: f[5].parse().unwrap(),
+            }
+        })
+        .collect()
+}
+
+fn ref_bases(seqseed: u64, i: usize, len: u64) -> Vec<u8> {
+    let mut r = Rng::new(seqseed ^ (0x5151 + i as u64 * 7919));
+    (0..len).map(|_| b"ACGT"[r.below(4) as usize]).collect()
+}
+
+fn repository(spec: &FileSpec) -> fasta::Repository {
+    let recs: Vec<fasta::Record> = spec
+        .ref_lens
+        .iter()
+        .enumerate()
+        .map(|(i, &l)| {
+            fasta::Record::new(
+                fasta::record::Definition::new(format!("sq{i}"), None),
+                fasta::record::Sequence::from(ref_bases(spec.seqseed, i, l)),
+            )
+        })
+        .collect();
+    fasta::Repository::new(recs)
+}
+
+fn sam_text(spec: &FileSpec) -> Vec<u8> {
+    let mut s = String::from("@HD\tVN:1.6\tSO:coordinate\n");
+    for (i, l) in spec.ref_lens.iter().enumerate() {
+        s.push_str(&format!("@SQ\tSN:sq{i}\tLN:{l}\n"));
+    }
+    let mut rng = Rng::new(spec.seqseed ^ 0xABCD);
+    for (i, r) in spec.recs.iter().enumerate() {
+        let (seq, qual) = if true {
+            let mut seq = Vec::new();
+            match r.rid.filter(|_| !r.cigar.is_empty()) {
+                Some(rid) => {
+                    let rb = ref_bases(spec.seqseed, rid, spec.ref_lens[rid]);
+                    let mut p = (r.start - 1) as usize;
+                    for &(op, n) in &r.cigar {
+                        for _ in 0..n {
+                            match op {
+                                'M' | '=' | 'X' => {
+                                    let b = if op == 'X' || (op == 'M' && rng.chance(1, 8)) {
+                                        b"ACGT"[rng.below(4) as usize]
+                                    } else {
+                                        rb[p]
+                                    };
+                                    seq.push(b);
+                                    p += 1;
+                                }
+                                'I' | 'S' => seq.push(b"ACGT"[rng.below(4) as usize]),
+                                'D' | 'N' => p += 1,
+                                _ => {}
+                            }
+                        }
+                    }
+                }
+                None => {
+                    for _ in 0..r.read_len {
+                        seq.push(b"ACGT"[rng.below(4) as usize]);
+                    }
+                }
+            }
+            let qual: String = (0..seq.len()).map(|_| (b'0' + rng.below(40) as u8) as char).collect();
+            (String::from_utf8(seq).unwrap(), qual)
+        } else {
+            ("*".to_string(), "*".to_string())
+        };
+        match r.rid {
+            Some(rid) if r.cigar.is_empty() => s.push_str(&format!(
+                "r{i}\t{}\tsq{rid}\t{}\t0\t*\t*\t0\t0\t{seq}\t{qual}\n",
+                if rng.chance(1, 3) { 20 } else { 4 },
+                r.start
+            )),
+            Some(rid) => s.push_str(&format!(
+                "r{i}\t{}\tsq{rid}\t{}\t{}\t{}\t*\t0\t0\t{seq}\t{qual}\n",
+                if rng.chance(1, 3) { 16 } else { 0 },
+                r.start,
+                rng.below(61),
+                fmt_cigar(&r.cigar)
+            )),
+            None => s.push_str(&format!("r{i}\t4\t*\t0\t255\t*\t*\t0\t0\t{seq}\t{qual}\n")),
+        }
+    }
+    s.into_bytes()
+}
+
+fn write_cram(spec: &FileSpec, repo: &fasta::Repository) -> Result<Vec<u8>, String> {
+    use sam::alignment::io::Write as _;
+    let text = sam_text(spec);
+    let mut r = sam::io::Reader::new(&text[..]);
+    let h = r.read_header().map_err(|e| format!("sam header: {e}"))?;
+    let recs = r
+        .record_bufs(&h)
+        .collect::<Result<Vec<_>, _>>()
+        .map_err(|e| format!("sam records: {e}"))?;
+    let repo = repo.clone();
+    let per = spec.per_slice;
+    match guarded(std::panic::AssertUnwindSafe(move || -> std::io::Result<Vec<u8>> {
+        let mut w = cram::io::writer::Builder::default()
+            .set_reference_sequence_repository(repo)
+            .verif_set_records_per_slice(per)
+            .build_from_writer(Vec::new());
+        w.write_header(&h)?;
+        for r in &recs {
+            w.write_alignment_record(&h, r)?;
+        }
+        w.try_finish(&h)?;
+        Ok(w.get_ref().clone())
+    })) {
+        Outcome::Done(Ok(b)) => Ok(b),
+        Outcome::Done(Err(e)) => Err(format!("Err:{}", errkind(&e))),
+        Outcome::Panicked(m) => Err(format!("Panic {m}")),
+    }
+}
+
+// ---------------------------------------------------------------------------------------------
+// independent container / block walker (CRAM 3.0 layout, written from the specification)
+
+fn itf8(b: &[u8], p: &mut usize) -> Option<i32> {
+    let b0 = *b.get(*p)? as u32;
+    let (n, v) = if b0 & 0x80 == 0 {
+        (1, b0)
+    } else if b0 & 0x40 == 0 {
+        (2, (b0 & 0x7f) << 8 | *b.get(*p + 1)? as u32)
+    } else if b0 & 0x20 == 0 {
+        (3, (b0 & 0x3f) << 16 | (*b.get(*p + 1)? as u32) << 8 | *b.get(*p + 2)? as u32)
+    } else if b0 & 0x10 == 0 {
+        (
+            4,
+            (b0 & 0x1f) << 24 | (*b.get(*p + 1)? as u32) << 16 | (*b.get(*p + 2)? as u32) << 8 | *b.get(*p + 3)? as u32,
+        )
+    } else {
+        (
+            5,
+            (b0 & 0x0f) << 28
+                | (*b.get(*p + 1)? as u32) << 20
+                | (*b.get(*p + 2)? as u32) << 12
+                | (*b.get(*p + 3)? as u32) << 4
+                | (*b.get(*p + 4)? as u32 & 0x0f),
+        )
+    };
+    *p += n;
+    Some(v as i32)
+}
+
+fn ltf8_skip(b: &[u8], p: &mut usize) -> Option<()> {
+    let b0 = *b.get(*p)?;
+    let extra = b0.leading_ones() as usize;
+    *p += 1 + extra.min(8);
+    if *p <= b.len() { Some(()) } else { None }
+}
+
+#[derive(Clone, Debug, PartialEq, Eq)]
+struct Cont {
+    offset: u64,
+    header_len: u64,
+    body_len: u64,
+    landmark: u64,  // = size of the first (compression header) block, from the block walk
+    slice_len: u64, // = total size of the remaining blocks, from the block walk
+    nrec: u64,
+    hdr_landmarks: Vec<u64>,
+    hdr_ref: i32,
+    hdr_start: i32,
+    hdr_span: i32,
+}
+
+/// returns (offset of the first data container, data containers, saw EOF container)
+fn walk(b: &[u8]) -> Result<(u64, Vec<Cont>, bool), String> {
+    if b.len() < 26 || &b[..4] != b"CRAM" {
+        return Err("no file definition".into());
+    }
+    let mut p = 26usize;
+    let mut out = Vec::new();
+    let mut first = true;
+    let mut p0 = 0u64;
+    let mut eof = false;
+    while p < b.len() {
+        let off = p;
+        if p + 4 > b.len() {
+            return Err("cut length".into());
+        }
+        let len = i32::from_le_bytes(b[p..p + 4].try_into().unwrap());
+        p += 4;
+        let e = || "cut header".to_string();
+        let rid = itf8(b, &mut p).ok_or_else(e)?;
+        let st = itf8(b, &mut p).ok_or_else(e)?;
+        let sp = itf8(b, &mut p).ok_or_else(e)?;
+        let nrec = itf8(b, &mut p).ok_or_else(e)?;
+        ltf8_skip(b, &mut p).ok_or_else(e)?;
+        ltf8_skip(b, &mut p).ok_or_else(e)?;
+        let nblocks = itf8(b, &mut p).ok_or_else(e)?;
+        let nl = itf8(b, &mut p).ok_or_else(e)?;
+        let mut lms = Vec::new();
+        for _ in 0..nl {
+            lms.push(itf8(b, &mut p).ok_or_else(e)? as u64);
+        }
+        p += 4; // crc32
+        let hl = p - off;
+        let body = p;
+        if len < 0 || body + len as usize > b.len() {
+            return Err("cut body".into());
+        }
+        // walk the blocks
+        let mut q = body;
+        let mut sizes = Vec::new();
+        for _ in 0..nblocks {
+            let bs = q;
+            q += 2;
+            itf8(b, &mut q).ok_or_else(e)?;
+            let csize = itf8(b, &mut q).ok_or_else(e)?;
+            itf8(b, &mut q).ok_or_else(e)?;
+            q += csize as usize + 4;
+            sizes.push((q - bs) as u64);
+        }
+        if q != body + len as usize {
+            return Err(format!("blocks do not fill the container at {off}"));
+        }
+        p = q;
+        if first {
+            first = false;
+            p0 = p as u64;
+            continue;
+        }
+        if len == 15 && rid == -1 && st == 4542278 && nrec == 0 {
+            eof = true;
+            continue;
+        }
+        out.push(Cont {
+            offset: off as u64,
+            header_len: hl as u64,
+            body_len: len as u64,
+            landmark: sizes.first().copied().unwrap_or(0),
+            slice_len: sizes.iter().skip(1).sum(),
+            nrec: nrec as u64,
+            hdr_landmarks: lms,
+            hdr_ref: rid,
+            hdr_start: st,
+            hdr_span: sp,
+        });
+    }
+    Ok((p0, out, eof))
+}
+
+fn fmt_layout(cs: &[Cont]) -> String {
+    if cs.is_empty() {
+        return "_".into();
+    }
+    cs.iter()
+        .map(|c| format!("{}:{}:{}:{}:{}:{}", c.offset, c.header_len, c.body_len, c.landmark, c.slice_len, c.nrec))
+        .collect::<Vec<_>>()
+        .join(";")
+}
+
+// ---------------------------------------------------------------------------------------------
+// expected index (independent computation)
+
+type Entry = (Option<usize>, Option<u64>, u64, u64, u64, u64); // rid start span offset landmark slice_len
+
+fn fmt_entries(es: &[Entry]) -> String {
+    if es.is_empty() {
+        return "_".into();
+    }
+    es.iter()
+        .map(|e| {
+            format!(
+                "{},{},{},{},{},{}",
+                e.0.map(|x| x.to_string()).unwrap_or_else(|| "*".into()),
+                e.1.map(|x| x.to_string()).unwrap_or_else(|| "-".into()),
+                e.2,
+                e.3,
+                e.4,
+                e.5
+            )
+        })
+        .collect::<Vec<_>>()
+        .join(";")
+}
+
+fn entry_of(r: &crai::Record) -> Entry {
+    (
+        r.reference_sequence_id(),
+        r.alignment_start().map(|p| usize::from(p) as u64),
+        r.alignment_span() as u64,
+        r.offset(),
+        r.landmark(),
+        r.slice_length(),
+    )
+}
+
+fn record_of(e: &Entry) -> crai::Record {
+    crai::Record::new(e.0, e.1.and_then(|s| Position::new(s as usize)), e.2 as usize, e.3, e.4, e.5)
+}
+
+/// chunks of the record list held by each container
+fn chunks<'a>(spec: &'a FileSpec, conts: &[Cont]) -> Option<Vec<&'a [RecSpec]>> {
+    let mut out = Vec::new();
+    let mut i = 0usize;
+    for c in conts {
+        let n = c.nrec as usize;
+        if i + n > spec.recs.len() || n == 0 {
+            return None;
+        }
+        out.push(&spec.recs[i..i + n]);
+        i += n;
+    }
+    if i == spec.recs.len() { Some(out) } else { None }
+}
+
+/// the entries the statement asks for: per slice, one entry per reference held (ascending
+/// reference id, the unmapped entry first as Option orders None first), span = min start .. max end
+fn expected_index(conts: &[Cont], chunks: &[&[RecSpec]]) -> Vec<Entry> {
+    let mut out = Vec::new();
+    for (c, recs) in conts.iter().zip(chunks) {
+        let mut rids: Vec<Option<usize>> = recs.iter().map(|r| r.rid).collect();
+        rids.sort();
+        rids.dedup();
+        for rid in rids {
+            let (start, span) = match rid {
+                None => (None, 0),
+                Some(_) => {
+                    let lo = recs.iter().filter(|r| r.rid == rid).map(|r| r.start).min().unwrap();
+                    let hi = recs.iter().filter(|r| r.rid == rid).map(|r| r.end).max().unwrap();
+                    (Some(lo), hi - lo + 1)
+                }
+            };
+            out.push((rid, start, span, c.offset, c.landmark, c.slice_len));
+        }
+    }
+    out
+}
+
+/// a multi-reference slice (as the writer classifies it) holding a mapped record with bases
+fn has_multiref_slice_with_bases(chunks: &[&[RecSpec]]) -> bool {
+    chunks.iter().any(|recs| {
+        let first = recs[0].rid;
+        let multi = first.is_none() && recs.iter().any(|r| r.rid.is_some()) || first.is_some() && recs.iter().any(|r| r.rid != first);
+        multi && recs.iter().any(|r| r.rid.is_some() && r.has_seq)
+    })
+}
+
+fn is_multi(recs: &[RecSpec]) -> bool {
+    let first = recs[0].rid;
+    recs.iter().any(|r| r.rid != first)
+}
+
+// ---------------------------------------------------------------------------------------------
+// running the real code
+
+struct Built {
+    spec: FileSpec,
+    repo: fasta::Repository,
+    bytes: Vec<u8>,
+    conts: Vec<Cont>,
+}
+
+fn parse_spec(c: &Case) -> FileSpec {
+    FileSpec {
+        per_slice: c.u(0) as usize,
+        ref_lens: c.args[1].split(',').map(|x| x.parse().unwrap()).collect(),
+        seqseed: c.u(2),
+        recs: parse_recs(&c.args[3]),
+    }
+}
+
+fn build(c: &Case) -> Result<Built, Obs> {
+    let spec = parse_spec(c);
+    for (i, r) in spec.recs.iter().enumerate() {
+        if r.rid.is_some() {
+            // placed unmapped records (no CIGAR) cover start .. start + read length - 1 in CRAM
+            let e = if r.cigar.is_empty() { r.start + r.read_len - 1 } else { r.start + ref_span(&r.cigar) - 1 };
+            if e != r.end || (!r.cigar.is_empty() && read_len(&r.cigar) != r.read_len) || r.has_seq == r.cigar.is_empty() {
+                return Err(Obs::fail("-", "harness-bad-case", format!("record {i}: end {} vs cigar {e}", r.end)));
+            }
+        }
+    }
+    let repo = repository(&spec);
+    let bytes = match write_cram(&spec, &repo) {
+        Ok(b) => b,
+        Err(m) => return Err(Obs::fail("-", "cram-write-failed", m)),
+    };
+    let (p0, conts, eof) = match walk(&bytes) {
+        Ok(x) => x,
+        Err(m) => return Err(Obs::fail("-", "cram-container-walk", m)),
+    };
+    if !eof {
+        return Err(Obs::fail("-", "cram-no-eof-container", ""));
+    }
+    if p0.to_string() != c.args[4] || fmt_layout(&conts) != c.args[5] {
+        return Err(Obs::fail(
+            "-",
+            "harness-layout-drift",
+            format!("case layout {} {} vs written {} {}", c.args[4], c.args[5], p0, fmt_layout(&conts)),
+        ));
+    }
+    Ok(Built { spec, repo, bytes, conts })
+}
+
+fn temp_path(tag: &str, c: &Case) -> std::path::PathBuf {
+    use std::hash::{Hash, Hasher};
+    let mut h = std::collections::hash_map::DefaultHasher::new();
+    c.line().hash(&mut h);
+    std::env::temp_dir().join(format!("nv-c19-{}-{}-{:016x}.{tag}", std::process::id(), c.id.replace('/', "_"), h.finish()))
+}
+
+struct TempFile(std::path::PathBuf);
+impl Drop for TempFile {
+    fn drop(&mut self) {
+        let _ = std::fs::remove_file(&self.0);
+    }
+}
+
+enum IndexResult {
+    Ok(crai::Index),
+    Err(String),
+    Panic(String),
+}
+
+fn real_index(b: &Built, c: &Case) -> IndexResult {
+    let path = temp_path("cram", c);
+    let _guard = TempFile(path.clone());
+    if let Err(e) = std::fs::write(&path, &b.bytes) {
+        return IndexResult::Err(format!("tempfile:{e}"));
+    }
+    let p = path.clone();
+    match guarded(move || cram::fs::index(&p)) {
+        Outcome::Done(Ok(i)) => IndexResult::Ok(i),
+        Outcome::Done(Err(e)) => IndexResult::Err(errkind(&e)),
+        Outcome::Panicked(m) => IndexResult::Panic(m),
+    }
+}
+
+fn run_idx(c: &Case) -> Obs {
+    let b = match build(c) {
+        Ok(b) => b,
+        Err(o) => return o,
+    };
+    let transport = c.u(6);
+    let Some(chunks) = chunks(&b.spec, &b.conts) else {
+        return Obs::fail("-", "cram-container-record-counts", fmt_layout(&b.conts));
+    };
+    let nontrivial = !b.conts.is_empty();
+    // structural facts of the written layout that the statement relies on
+    for (k, ct) in b.conts.iter().enumerate() {
+        if ct.hdr_landmarks != vec![ct.landmark] {
+            return Obs::fail("-", "cram-container-landmarks", format!("container {k}: header {:?} vs block walk {}", ct.hdr_landmarks, ct.landmark));
+        }
+        if ct.nrec as usize > b.spec.per_slice {
+            return Obs::fail("-", "cram-container-record-counts", format!("container {k} holds {} records", ct.nrec));
+        }
+    }
+    let expected = expected_index(&b.conts, &chunks);
+    let idx = match real_index(&b, c) {
+        IndexResult::Ok(i) => i,
+        IndexResult::Err(k) => return Obs::fail(format!("I=Err:{k}"), "cram-index-error", k.clone()),
+        IndexResult::Panic(m) => {
+            let tag = if has_multiref_slice_with_bases(&chunks) && m.contains("invalid reference sequence name") {
+                "cram-index-multiref-slice-panics"
+            } else {
+                "cram-index-panic"
+            };
+            return Obs::fail("I=Panic", tag, m);
+        }
+    };
+    let got: Vec<Entry> = idx.iter().map(entry_of).collect();
+    let obs = format!("I={}", fmt_entries(&got));
+    // compare per slice: the entries of a slice are those carrying its offset
+    let mut verdict: Result<(), (String, String)> = Ok(());
+    let mut fail = |tag: &str, d: String| {
+        if verdict.is_ok() {
+            verdict = Err((tag.to_string(), d));
+        }
+    };
+    if got.len() != expected.len() {
+        fail("crai-entry-count", format!("{} entries, expected {}: got {} want {}", got.len(), expected.len(), fmt_entries(&got), fmt_entries(&expected)));
+    } else if got != expected && {
+        let (mut a, mut b2) = (got.clone(), expected.clone());
+        a.sort();
+        b2.sort();
+        a == b2
+    } {
+        // the right entries in another order (within a slice: unmapped first, then ascending reference id;
+        // slices in file order) -- readers that bisect the index by reference rely on it
+        fail("crai-entry-order", format!("got {} want {}", fmt_entries(&got), fmt_entries(&expected)));
+    } else {
+        for (g, e) in got.iter().zip(&expected) {
+            let field = if g.3 != e.3 {
+                Some("offset")
+            } else if g.4 != e.4 {
+                Some("landmark")
+            } else if g.5 != e.5 {
+                Some("slice-length")
+            } else if g.0 != e.0 {
+                Some("reference")
+            } else if g.1 != e.1 {
+                Some("start")
+            } else if g.2 != e.2 {
+                Some("span")
+            } else {
+                None
+            };
+            if let Some(f) = field {
+                fail(&format!("crai-entry-wrong-{f}"), format!("got {} want {}", fmt_entries(&[*g]), fmt_entries(&[*e])));
+            }
+        }
+    }
+    // transport of the index through the crai writer/reader
+    let back: Option<std::io::Result<crai::Index>> = match transport {
+        1 => {
+            let p = temp_path("crai", c);
+            let _g = TempFile(p.clone());
+            Some(crai::fs::write(&p, &idx).and_then(|_| crai::fs::read(&p)))
+        }
+        2 => {
+            let mut w = crai::io::Writer::new(Vec::new());
+            Some(w.write_index(&idx).and_then(|_| w.finish()).and_then(|bytes| crai::io::Reader::new(&bytes[..]).read_index()))
+        }
+        _ => None,
+    };
+    match back {
+        Some(Ok(i2)) if i2 != idx => fail("crai-roundtrip-differs", format!("read back {}", fmt_entries(&i2.iter().map(entry_of).collect::<Vec<_>>()))),
+        Some(Err(e)) => fail("crai-roundtrip-error", errkind(&e)),
+        _ => {}
+    }
+    Obs::ok(obs, nontrivial).with_verdict(verdict)
+}
+
+fn parse_regions(s: &str) -> Vec<(usize, Option<u64>, Option<u64>)> {
+    if s == "_" {
+        return vec![];
+    }
+    s.split(';')
+        .map(|t| {
+            let f: Vec<&str> = t.split(':').collect();
+            let o = |x: &str| if x == "-" { None } else { Some(x.parse().unwrap()) };
+            (f[0].parse().unwrap(), o(f[1]), o(f[2]))
+        })
+        .collect()
+}
+
+fn region(r: usize, lo: Option<u64>, hi: Option<u64>) -> Region {
+    let name = format!("sq{r}");
+    let p = |x: u64| Position::new(x as usize).expect("position");
+    match (lo, hi) {
+        (Some(a), Some(b)) => Region::new(name, p(a)..=p(b)),
+        (Some(a), None) => Region::new(name, p(a)..),
+        (None, Some(b)) => Region::new(name, ..=p(b)),
+        (None, None) => Region::new(name, ..),
+    }
+}
+
+enum Ans {
+    Names(Vec<String>),
+    Err(String),
+    Panic(String),
+}
+
+fn name_of(r: &sam::alignment::RecordBuf) -> String {
+    r.name().map(|n| n.to_string()).unwrap_or_else(|| "?".into())
+}
+
+fn run_qry(c: &Case) -> Obs {
+    let b = match build(c) {
+        Ok(b) => b,
+        Err(o) => return o,
+    };
+    let regions = parse_regions(&c.args[6]);
+    let mode = c.u(7);
+    let Some(chunks) = chunks(&b.spec, &b.conts) else {
+        return Obs::fail("-", "cram-container-record-counts", fmt_layout(&b.conts));
+    };
+    let chunk_of: Vec<usize> = chunks.iter().enumerate().flat_map(|(k, ch)| std::iter::repeat(k).take(ch.len())).collect();
+    let expected_idx = expected_index(&b.conts, &chunks);
+    let mut index: crai::Index = match real_index(&b, c) {
+        IndexResult::Ok(i) => i,
+        _ => expected_idx.iter().map(record_of).collect(),
+    };
+    if mode == 2 {
+        // through a .crai file
+        let p = temp_path("crai", c);
+        let _g = TempFile(p.clone());
+        match crai::fs::write(&p, &index).and_then(|_| crai::fs::read(&p)) {
+            Ok(i) => index = i,
+            Err(e) => return Obs::fail("-", "crai-roundtrip-error", errkind(&e)),
+        }
+    }
+    let n = b.spec.recs.len();
+    let nrefs = b.spec.ref_lens.len();
+    let collect = |it: &mut dyn Iterator<Item = std::io::Result<sam::alignment::RecordBuf>>| -> Ans {
+        let mut names = Vec::new();
+        for r in it {
+            match r {
+                Ok(r) => names.push(name_of(&r)),
+                Err(e) => return Ans::Err(errkind(&e)),
+            }
+            if names.len() > 4 * n + 8 {
+                return Ans::Err("Runaway".into());
+            }
+        }
+        Ans::Names(names)
+    };
+    let mut answers: Vec<Ans> = Vec::new();
+    let bytes = &b.bytes;
+    let repo = &b.repo;
+    let out = guarded(std::panic::AssertUnwindSafe(|| -> Vec<Ans> {
+        let mut answers = Vec::new();
+        match mode {
+            0 => {
+                let mut rd = cram::io::reader::Builder::default()
+                    .set_reference_sequence_repository(repo.clone())
+                    .build_from_reader(Cursor::new(bytes.clone()));
+                let h = match rd.read_header() {
+                    Ok(h) => h,
+                    Err(e) => return vec![Ans::Err(errkind(&e))],
+                };
+                for &(r, lo, hi) in &regions {
+                    let a = match guarded(std::panic::AssertUnwindSafe(|| match rd.query(&h, &index, &region(r, lo, hi)) {
+                        Ok(q) => collect(&mut q.records()),
+                        Err(e) => Ans::Err(errkind(&e)),
+                    })) {
+                        Outcome::Done(a) => a,
+                        Outcome::Panicked(m) => Ans::Panic(m),
+                    };
+                    answers.push(a);
+                }
+            }
+            1 => {
+                for &(r, lo, hi) in &regions {
+                    let a = match guarded(std::panic::AssertUnwindSafe(|| {
+                        let mut rd = cram::io::reader::Builder::default()
+                            .set_reference_sequence_repository(repo.clone())
+                            .build_from_reader(Cursor::new(bytes.clone()));
+                        let h = match rd.read_header() {
+                            Ok(h) => h,
+                            Err(e) => return Ans::Err(errkind(&e)),
+                        };
+                        match rd.query(&h, &index, &region(r, lo, hi)) {
+                            Ok(q) => collect(&mut q.records()),
+                            Err(e) => Ans::Err(errkind(&e)),
+                        }
+                    })) {
+                        Outcome::Done(a) => a,
+                        Outcome::Panicked(m) => Ans::Panic(m),
+                    };
+                    answers.push(a);
+                }
+            }
+            _ => {
+                let mut rd = match cram::io::indexed_reader::Builder::default()
+                    .set_reference_sequence_repository(repo.clone())
+                    .set_index(index.clone())
+                    .build_from_reader(Cursor::new(bytes.clone()))
+                {
+                    Ok(r) => r,
+                    Err(e) => return vec![Ans::Err(errkind(&e))],
+                };
+                let h = match rd.read_header() {
+                    Ok(h) => h,
+                    Err(e) => return vec![Ans::Err(errkind(&e))],
+                };
+                for &(r, lo, hi) in &regions {
+                    let a = match guarded(std::panic::AssertUnwindSafe(|| match rd.query(&h, &region(r, lo, hi)) {
+                        Ok(q) => collect(&mut q.records()),
+                        Err(e) => Ans::Err(errkind(&e)),
+                    })) {
+                        Outcome::Done(a) => a,
+                        Outcome::Panicked(m) => Ans::Panic(m),
+                    };
+                    answers.push(a);
+                }
+            }
+        }
+        answers
+    }));
+    match out {
+        Outcome::Done(a) => answers.extend(a),
+        Outcome::Panicked(m) => return Obs::fail("Q=Panic", "cram-query-panic", m),
+    }
+    if answers.len() != regions.len() {
+        let k = match answers.first() {
+            Some(Ans::Err(k)) => k.clone(),
+            _ => "?".into(),
+        };
+        return Obs::fail(format!("Q=Err:{k}"), "cram-reader-open-error", k);
+    }
+
+    // scan-and-filter expectation from the records written (own CIGAR arithmetic)
+    let mut obs_parts = Vec::new();
+    // failures by priority class: 0 = wrong set/order/duplicate/error, 1 = reference id ignored
+    let mut fails: Vec<(u8, String, String)> = Vec::new();
+    let mut nontrivial = false;
+    for (k, (&(r, lo, hi), a)) in regions.iter().zip(&answers).enumerate() {
+        let rl = lo.unwrap_or(1);
+        let rh = hi.unwrap_or(u64::MAX);
+        let want: Vec<usize> = if r < nrefs {
+            (0..n)
+                .filter(|&i| {
+                    let x = &b.spec.recs[i];
+                    x.rid == Some(r) && x.start <= rh && rl <= x.end
+                })
+                .collect()
+        } else {
+            vec![]
+        };
+        let desc = format!("region {k} sq{r}:{}-{}", lo.map(|x| x.to_string()).unwrap_or_default(), hi.map(|x| x.to_string()).unwrap_or_default());
+        match a {
+            Ans::Err(kind) => {
+                obs_parts.push(format!("Err:{kind}"));
+                if r >= nrefs && kind == "InvalidInput" {
+                    // a region naming a reference the header does not declare is rejected
+                } else {
+                    fails.push((0, "cram-query-error".into(), format!("{desc}: {kind}")));
+                }
+            }
+            Ans::Panic(m) => {
+                obs_parts.push("Panic".into());
+                fails.push((0, "cram-query-panic".into(), format!("{desc}: {m}")));
+            }
+            Ans::Names(names) => {
+                let got: Vec<Option<usize>> = names
+                    .iter()
+                    .map(|s| s.strip_prefix('r').and_then(|t| t.parse::<usize>().ok()).filter(|&i| i < n))
+                    .collect();
+                obs_parts.push(if got.is_empty() {
+                    "_".into()
+                } else {
+                    got.iter().map(|g| g.map(|i| i.to_string()).unwrap_or_else(|| "?".into())).collect::<Vec<_>>().join(",")
+                });
+                if r >= nrefs {
+                    fails.push((0, "cram-query-unknown-reference-accepted".into(), desc.clone()));
+                    continue;
+                }
+                if !want.is_empty() {
+                    nontrivial = true;
+                }
+                if got.iter().any(|g| g.is_none()) {
+                    fails.push((0, "cram-query-unknown-record".into(), format!("{desc}: {names:?}")));
+                    continue;
+                }
+                let got: Vec<usize> = got.into_iter().flatten().collect();
+                if got == want {
+                    continue;
+                }
+                let mut seen = std::collections::BTreeSet::new();
+                let dup = got.iter().find(|i| !seen.insert(**i));
+                let missing: Vec<usize> = want.iter().copied().filter(|i| !seen.contains(i)).collect();
+                let extra: Vec<usize> = seen.iter().copied().filter(|i| !want.contains(i)).collect();
+                let extra_other_ref: Vec<usize> = extra.iter().copied().filter(|&i| b.spec.recs[i].rid != Some(r)).collect();
+                let detail = format!("{desc}: got {got:?} want {want:?}");
+                if !missing.is_empty() {
+                    fails.push((0, "cram-query-missing-record".into(), detail));
+                } else if let Some(d) = dup {
+                    fails.push((0, "cram-query-duplicate".into(), format!("{detail} (r{d} twice)")));
+                } else if extra.len() > extra_other_ref.len() {
+                    fails.push((0, "cram-query-extra-record".into(), detail));
+                } else if !extra_other_ref.is_empty() {
+                    // records of ANOTHER reference whose coordinates fall in the interval; they can only
+                    // come from a multi-reference slice that also holds a record of the queried reference
+                    let from_multi = extra_other_ref.iter().all(|&i| {
+                        let ch = chunks[chunk_of[i]];
+                        is_multi(ch) && ch.iter().any(|x| x.rid == Some(r))
+                    });
+                    // the remaining records must still be the right ones in file order
+                    let rest: Vec<usize> = got.iter().copied().filter(|i| want.contains(i)).collect();
+                    let in_order = got.windows(2).all(|w| w[0] < w[1]);
+                    if from_multi && rest == want && in_order {
+                        fails.push((1, "cram-query-ignores-reference-id".into(), detail));
+                    } else {
+                        fails.push((0, "cram-query-extra-record".into(), detail));
+                    }
+                } else {
+                    fails.push((0, "cram-query-order".into(), detail));
+                }
+            }
+        }
+    }
+    let obs = format!("Q={}", if obs_parts.is_empty() { "_".into() } else { obs_parts.join(";") });
+    fails.sort_by_key(|f| f.0);
+    match fails.into_iter().next() {
+        None => Obs::ok(obs, nontrivial),
+        Some((_, tag, d)) => Obs::fail(obs, &tag, d),
+    }
+}
+
+fn run(c: &Case) -> Obs {
+    match c.kind.as_str() {
+        "idx" => run_idx(c),
+        "qry" => run_qry(c),
+        _ => Obs::ok("-", false),
+    }
+}
+
+// ---------------------------------------------------------------------------------------------
+// generation
+
+fn gen_cigar(rng: &mut Rng, max_ref: u64) -> Vec<(char, u64)> {
+    // a CIGAR whose reference span is <= max_ref (>= 1)
+    let mut c: Vec<(char, u64)> = Vec::new();
+    let shape = rng.below(8);
+    let m = |rng: &mut Rng, cap: u64| rng.range(1, cap.max(1).min(12));
+    match shape {
+        0 | 1 | 2 => c.push(('M', m(rng, max_ref))),
+        3 => {
+            c.push(('M', 1));
+        }
+        4 if max_ref >= 3 => {
+            let a = m(rng, (max_ref - 2).min(6));
+            let d = rng.range(1, (max_ref - a - 1).min(9));
+            let rest = max_ref - a - d;
+            c.push(('M', a));
+            c.push((if rng.chance(1, 2) { 'D' } else { 'N' }, d));
+            c.push(('M', m(rng, rest)));
+        }
+        5 if max_ref >= 2 => {
+            let a = m(rng, max_ref - 1);
+            c.push(('M', a));
+            c.push(('I', rng.range(1, 4)));
+            c.push(('M', m(rng, max_ref - a)));
+        }
+        6 => {
+            c.push(('S', rng.range(1, 5)));
+            c.push(('M', m(rng, max_ref)));
+            if rng.chance(1, 2) {
+                c.push(('S', rng.range(1, 3)));
+            }
+        }
+        _ => {
+            if rng.chance(1, 2) {
+                c.push(('H', rng.range(1, 3)));
+            }
+            c.push(('M', m(rng, max_ref)));
+        }
+    }
+    c
+}
+
+fn gen_spec(rng: &mut Rng, flavour: u64) -> FileSpec {
+    let big = flavour % 10 == 9;
+    let nrefs = match flavour % 4 {
+        0 => rng.range(2, 3),
+        1 => rng.range(1, 4),
+        _ => rng.range(2, if big { 6 } else { 4 }),
+    } as usize;
+    let ref_lens: Vec<u64> = (0..nrefs).map(|_| rng.range(24, 120)).collect();
+    let placed_file = flavour % 7 == 3;
+    let mut recs = Vec::new();
+    for rid in 0..nrefs {
+        // some references get no record at all
+        let k = if nrefs > 1 && rng.chance(1, 5) { 0 } else { rng.range(1, if big { 9 } else { 5 }) };
+        let mut v = Vec::new();
+        // cluster starts so that regions and records share boundaries
+        let base = rng.range(1, ref_lens[rid] / 2);
+        for _ in 0..k {
+            // a third of the starts anywhere, the rest clustered (ties and nested records included)
+            let start = if rng.chance(1, 3) { rng.range(1, ref_lens[rid] - 1) } else { let w = if rng.chance(1, 4) { 2 } else { 12 }; (base + rng.below(w)).min(ref_lens[rid] - 1) };
+            let max_ref = ref_lens[rid] - start + 1;
+            let cigar = if placed_file { vec![] } else { gen_cigar(rng, max_ref) };
+            let plen = rng.range(1, max_ref.min(8));
+            let end = if placed_file { start + plen - 1 } else { start + ref_span(&cigar) - 1 };
+            assert!(end <= ref_lens[rid]);
+            v.push(RecSpec {
+                rid: Some(rid),
+                start,
+                end,
+                has_seq: !placed_file,
+                read_len: if placed_file { plen } else { read_len(&cigar) },
+                cigar,
+            });
+        }
+        v.sort_by_key(|r| r.start);
+        recs.extend(v);
+    }
+    let unmapped = match rng.below(4) {
+        0 => 0,
+        1 => 1,
+        _ => rng.range(0, 4),
+    };
+    for _ in 0..unmapped {
+        recs.push(RecSpec { rid: None, start: 0, end: 0, has_seq: false, cigar: vec![], read_len: rng.range(1, 8) });
+    }
+    if recs.is_empty() {
+        recs.push(RecSpec { rid: Some(0), start: 1, end: 3, has_seq: true, cigar: vec![('M', 3)], read_len: 3 });
+    }
+    let n = recs.len() as u64;
+    let per_slice = match rng.below(8) {
+        0 => 1,
+        1 => 2,
+        2 => 3,
+        3 => rng.range(1, n),
+        4 => n,
+        5 => n + 1,
+        6 => rng.range(2, 5),
+        _ => 10_000,
+    } as usize;
+    FileSpec { per_slice, ref_lens, seqseed: rng.next() >> 8, recs }
+}
+
+fn gen_regions(rng: &mut Rng, spec: &FileSpec, count: usize) -> String {
+    let nrefs = spec.ref_lens.len();
+    let mut out: Vec<String> = Vec::new();
+    let o = |x: Option<u64>| x.map(|v| v.to_string()).unwrap_or_else(|| "-".into());
+    // boundary positions: record starts/ends of ANY reference (so that other references' records fall inside)
+    let mut marks: Vec<u64> = spec.recs.iter().filter(|r| r.rid.is_some()).flat_map(|r| [r.start, r.end]).collect();
+    if marks.is_empty() {
+        marks.push(1);
+    }
+    for k in 0..count {
+        let r = if k == count - 1 && rng.chance(1, 3) { nrefs + rng.below(2) as usize } else { rng.below(nrefs as u64) as usize };
+        let m = *rng.pick(&marks);
+        let wig = |rng: &mut Rng, m: u64| (m as i64 + rng.range(0, 2) as i64 - 1).max(1) as u64;
+        let (lo, hi) = match k % 8 {
+            0 => (None, None),
+            1 => {
+                let p = wig(rng, m);
+                (Some(p), Some(p))
+            }
+            2 => (Some(wig(rng, m)), None),
+            3 => (None, Some(wig(rng, m))),
+            4 => {
+                let a = wig(rng, m);
+                let m2 = *rng.pick(&marks);
+                let b2 = wig(rng, m2);
+                (Some(a.min(b2)), Some(a.max(b2)))
+            }
+            5 => {
+                // beyond every record
+                let far = 130 + rng.below(1000);
+                (Some(far), if rng.chance(1, 2) { Some(far + rng.below(50)) } else { None })
+            }
+            6 => {
+                let a = rng.range(1, 120);
+                (Some(a), Some(a + rng.below(20)))
+            }
+            _ => {
+                let a = wig(rng, m);
+                (Some(a), Some(a + rng.below(4)))
+            }
+        };
+        out.push(format!("{r}:{}:{}", o(lo), o(hi)));
+    }
+    out.join(";")
+}
+
+fn push_file(rng: &mut Rng, w: &mut CaseWriter, spec: &FileSpec, nreg: usize) {
+    let repo = repository(spec);
+    let (p0, layout) = match write_cram(spec, &repo).and_then(|b| walk(&b)) {
+        Ok((p0, conts, _)) => (p0.to_string(), fmt_layout(&conts)),
+        Err(m) => ("0".to_string(), format!("!{}", m.replace(['\t', ' ', ';', ':'], "_"))),
+    };
+    let base = vec![
+        spec.per_slice.to_string(),
+        spec.ref_lens.iter().map(|x| x.to_string()).collect::<Vec<_>>().join(","),
+        spec.seqseed.to_string(),
+        fmt_recs(&spec.recs),
+        p0,
+        layout,
+    ];
+    let mut a = base.clone();
+    a.push(rng.below(3).to_string());
+    w.push("idx", a);
+    if spec.recs.iter().any(|r| r.rid.is_some() && r.cigar.is_empty()) {
+        // placed unmapped records: whether they "intersect" a region is not fixed by the statement
+        return;
+    }
+    let mut a = base;
+    a.push(gen_regions(rng, spec, nreg));
+    a.push(rng.below(3).to_string());
+    w.push("qry", a);
+}
+
+fn generate(rng: &mut Rng, tier: &str, w: &mut CaseWriter) {
+    nv::silence_panics();
+    let thorough = tier == "thorough";
+    let nfiles = if thorough { 30000 } else { 1500 };
+    for i in 0..nfiles {
+        let spec = gen_spec(rng, i);
+        push_file(rng, w, &spec, 15);
+    }
+}
+
+fn main() {
+    nv::main_with(generate, run)
 }
